@@ -746,9 +746,11 @@ def seeded_search(ctx, f, names=('upper_bound', 'lower_bound')):
     function that contains the call) -- the search may sit in a file-local helper f was split into.
     None when there is not exactly one such call in scope."""
     found = []
+    from .frontend import owner_fn
     for (uu, ff) in ctx.scope(f):
         for x in walk(ff):
-            if x.get('kind') == 'CallExpr' and callee(x) and callee(x)[0] == 'fn' and callee(x)[1].get('name') in names:
+            if x.get('kind') == 'CallExpr' and callee(x) and callee(x)[0] == 'fn' and callee(x)[1].get('name') in names \
+                    and owner_fn(x) is ff:           # (a lambda's body belongs to the lambda)
                 found.append((ff, x))
     if len(found) != 1:
         return None
